@@ -79,3 +79,21 @@ func VerifSetShardTombstone(s zoekt.Searcher, i int, tomb bool) error {
 	d.repoMetaData[i].Tombstone = tomb
 	return nil
 }
+
+// VerifSetFileTombstones sets the FileTombstones of repository i of an in-memory shard (what loading a shard
+// whose .meta sidecar carries FileTombstones produces).
+func VerifSetFileTombstones(s zoekt.Searcher, i int, paths []string) error {
+	d, ok := s.(*indexData)
+	if !ok {
+		return fmt.Errorf("not a shard searcher: %T", s)
+	}
+	if i < 0 || i >= len(d.repoMetaData) {
+		return fmt.Errorf("repository index %d out of range", i)
+	}
+	m := map[string]struct{}{}
+	for _, p := range paths {
+		m[p] = struct{}{}
+	}
+	d.repoMetaData[i].FileTombstones = m
+	return nil
+}
